@@ -13,23 +13,376 @@ import warnings
 import cloudpickle
 import numpy as np
 
+import exprs
+import names as nm
 import progs
 from c07_child import summary
-from common import Check, REPO, SCRATCH_ROOT
+from common import Check, REPO, SCRATCH_ROOT, coq_eval_cases
+
+
+class NodeRoundTrip:
+    """Model-correspondence family: every expression NODE of the raw / simplified / lowered / fused /
+    materialized forms is pickled and unpickled on its own; what __reduce__ ships (token, which cached
+    properties) is compared with the model's classification `reduce_carries`, the model's round-tripped name
+    (rt_name, receiving tokenizer different from the sender's) with the model's name, and the real name /
+    token / chunks / dtype must not move."""
+
+    def __init__(self, chk):
+        self.chk = chk
+        self.R = nm.Reifier()
+        self.cases, self.info = [], []
+
+    def add(self, arr, pshow):
+        from dask._expr import Expr
+        from dask_array._expr import ArrayExpr, RootAlias
+        chk, R = self.chk, self.R
+        try:
+            with warnings.catch_warnings():
+                warnings.simplefilter("ignore")
+                forms = exprs.phases(arr.expr)
+                low = arr._lowered_expr
+        except Exception:  # noqa: BLE001
+            chk.count("nodes:skipped:raises")
+            return
+        roots = list(forms.values()) + [low]
+        for r in roots:
+            for node in r.walk():
+                if isinstance(node, ArrayExpr):
+                    R.register(node)
+        if isinstance(low, RootAlias):
+            R.raw_of[id(low)] = arr.expr
+        case = nm.Case(R)
+        rows, seen = [], set()
+        for r in roots:
+            for node in r.walk():
+                if not isinstance(node, ArrayExpr) or id(node) in seen:
+                    continue
+                seen.add(id(node))
+                chk.count("nodes")
+                cls = type(node).__name__
+                try:
+                    red = node.__reduce__()
+                    typ, token, cache = red[1][0], red[1][-2], red[1][-1]
+                    with warnings.catch_warnings():
+                        warnings.simplefilter("ignore")
+                        back = cloudpickle.loads(cloudpickle.dumps(node))
+                        after = (back._name, repr(back.deterministic_token), repr(back.chunks), str(back.dtype))
+                        before = (node._name, repr(node.deterministic_token), repr(node.chunks), str(node.dtype))
+                except Exception as e:  # noqa: BLE001
+                    chk.violation(f"pickling a {cls} node raises {type(e).__name__}: {str(e)[:100]}", {"program": pshow},
+                                  signature={"class": "node-pickle-raises", "cls": cls, "error": type(e).__name__})
+                    continue
+                if red[0] is not Expr._reconstruct or typ is not type(node) or token != node.deterministic_token:
+                    chk.violation(f"{cls}.__reduce__ does not ship (type, operands, deterministic_token, cache)", {"program": pshow},
+                                  signature={"class": "node-reduce-shape", "cls": cls})
+                diff = [k for k, a, b in zip(("name", "token", "chunks", "dtype"), before, after) if a != b]
+                if diff:
+                    chk.violation(f"a {cls} node changes {', '.join(diff)} over a pickle round trip",
+                                  {"program": pshow, "before": before, "after": after},
+                                  signature={"class": "node-pickle", "cls": cls, "fields": diff})
+                kind = 0 if "_name" in cache else (1 if "_info" in cache else 2)
+                try:
+                    v = case.node(node)
+                except nm.Unmodelled as e:
+                    chk.count("unmodelled:" + str(e)[:60])
+                    continue
+                except Exception as e:  # noqa: BLE001
+                    chk.count("unmodelled:raises:" + type(e).__name__)
+                    continue
+                ids = (R.real_names.setdefault(before[0], len(R.real_names)), R.real_names.setdefault(after[0], len(R.real_names)),
+                       R.real_tokens.setdefault(before[1], len(R.real_tokens)), R.real_tokens.setdefault(after[1], len(R.real_tokens)))
+                rows.append(f"({v}, {kind}, ({ids[0]}, {ids[1]}), ({ids[2]}, {ids[3]}))")
+                chk.count(f"model:carries={kind}:{cls}")
+        if rows:
+            lets = " ".join(f"let {v} := {t} in" for v, t in case.lets)
+            self.cases.append(f"({lets} [{'; '.join(rows)}])")
+            self.info.append({"program": pshow, "nodes": len(rows)})
+
+    def finish(self):
+        chk = self.chk
+        bad, _ = coq_eval_cases(nm.HEADER, "list (expr * Z * (Z * Z) * (Z * Z))",
+                                "Definition chk (c : list (expr * Z * (Z * Z) * (Z * Z))) : bool := forallb roundtrip_ok c.",
+                                self.cases, chunk=25)
+        for i in bad:
+            chk.tie_break("names-roundtrip-model-mismatch", {"case": self.info[i], "literal": self.cases[i][:3000]})
+        chk.traces_validated += len(self.cases) - len(bad)
+        chk.extra["model_cases"] = len(self.cases)
+        chk.extra["model_nodes"] = sum(i["nodes"] for i in self.info)
+
+
+def _set(a, v):
+    a = a.copy()
+    a[a > 3] = v
+    return a
+
+
+def _pf(b, k=1):
+    return b * k
+
+
+def _mk(k):
+    return lambda b: b + k
+
+
+def _g1(a, idx, *args, **kw):
+    return np.asarray(a[idx]) * 1
+
+
+def _g2(a, idx, *args, **kw):
+    return np.asarray(a[idx]) * 2
+
+
+def _chunkf(b, axis=None, keepdims=False):
+    return np.sum(b, axis=axis, keepdims=keepdims)
+
+
+def operand_probes(chk, da):
+    """pairs of API calls that differ in ONE operand: whenever values, chunks or dtype differ the names must
+    differ (an operand the tokenizer forgets would show up here)"""
+    import operator
+    A = np.arange(24, dtype="int64").reshape(4, 6)
+    A1 = np.arange(12, dtype="float64")
+    x = lambda: da.from_array(A, chunks=(2, 3))      # noqa: E731
+    x1 = lambda: da.from_array(A1, chunks=4)         # noqa: E731
+    rng = lambda s=1: da.random.default_rng(s)       # noqa: E731
+    P = [
+        ("sum:dtype", lambda: x().sum(dtype="f8"), lambda: x().sum(dtype="i8")),
+        ("sum:dtype-f4", lambda: x1().sum(dtype="f4"), lambda: x1().sum(dtype="f8")),
+        ("sum:keepdims", lambda: x().sum(axis=0, keepdims=True), lambda: x().sum(axis=0)),
+        ("sum:axis", lambda: x().sum(axis=0), lambda: x().sum(axis=1)),
+        ("sum:split_every", lambda: x1().rechunk(1).sum(split_every=2), lambda: x1().rechunk(1).sum(split_every=4)),
+        ("sum/mean", lambda: x().mean(), lambda: x().sum()),
+        ("var:ddof", lambda: x1().var(ddof=0), lambda: x1().var(ddof=1)),
+        ("std:ddof", lambda: x1().std(ddof=0), lambda: x1().std(ddof=1)),
+        ("nanvar:ddof", lambda: da.nanvar(x1(), ddof=0), lambda: da.nanvar(x1(), ddof=1)),
+        ("moment:order", lambda: da.moment(x1(), 2), lambda: da.moment(x1(), 3)),
+        ("argmax:axis", lambda: x().argmax(axis=0), lambda: x().argmax(axis=1)),
+        ("argmax/argmin", lambda: x().argmax(axis=0), lambda: x().argmin(axis=0)),
+        ("cumsum/cumprod", lambda: da.cumsum(x1()), lambda: da.cumprod(x1())),
+        ("cumsum:dtype", lambda: da.cumsum(x1(), dtype="f4"), lambda: da.cumsum(x1(), dtype="f8")),
+        ("cumsum:axis", lambda: da.cumsum(x(), axis=0), lambda: da.cumsum(x(), axis=1)),
+        ("topk:k", lambda: da.topk(x1(), 2), lambda: da.topk(x1(), 3)),
+        ("topk:sign", lambda: da.topk(x1(), 2), lambda: da.topk(x1(), -2)),
+        ("argtopk:sign", lambda: da.argtopk(x1(), 2), lambda: da.argtopk(x1(), -2)),
+        ("percentile:q", lambda: da.percentile(x1(), 50), lambda: da.percentile(x1(), 10)),
+        ("percentile:method", lambda: da.percentile(x1(), 50, method="linear"), lambda: da.percentile(x1(), 50, method="lower")),
+        ("median:axis", lambda: da.median(x(), axis=0), lambda: da.median(x(), axis=1)),
+        ("reduction:meta-dtype", lambda: da.reduction(x1(), _chunkf, _chunkf, dtype="f8", meta=np.empty((), dtype="f4")),
+         lambda: da.reduction(x1(), _chunkf, _chunkf, dtype="f8", meta=np.empty((), dtype="i2"))),
+        ("reduction:meta-type", lambda: da.reduction(x1(), _chunkf, _chunkf, dtype="f8", meta=np.empty(())),
+         lambda: da.reduction(x1(), _chunkf, _chunkf, dtype="f8", meta=np.ma.empty(()))),
+        ("reduction:name", lambda: da.reduction(x1(), _chunkf, _chunkf, dtype="f8", name="foo"), lambda: da.reduction(x1(), _chunkf, _chunkf, dtype="f8", name="bar")),
+        ("reduction:output_size", lambda: da.reduction(x1(), _chunkf, _chunkf, dtype="f8", keepdims=True, output_size=1),
+         lambda: da.reduction(x1(), _chunkf, _chunkf, dtype="f8", keepdims=True, output_size=2)),
+        ("reduction:concatenate", lambda: da.reduction(x1(), _chunkf, _chunkf, dtype="f8", concatenate=True),
+         lambda: da.reduction(x1(), _chunkf, _chunkf, dtype="f8", concatenate=False)),
+        ("from_array:meta", lambda: da.from_array(A1, chunks=4, meta=np.empty((0,))), lambda: da.from_array(A1, chunks=4, meta=np.ma.empty((0,)))),
+        ("from_array:asarray", lambda: da.from_array(A1, chunks=4, asarray=True), lambda: da.from_array(A1, chunks=4, asarray=False)),
+        ("from_array:fancy", lambda: da.from_array(A1, chunks=4, fancy=True), lambda: da.from_array(A1, chunks=4, fancy=False)),
+        ("from_array:getitem", lambda: da.from_array(A1, chunks=4, getitem=_g1, lock=True), lambda: da.from_array(A1, chunks=4, getitem=_g2, lock=True)),
+        ("from_array:inline", lambda: da.from_array(A1, chunks=4, inline_array=True), lambda: da.from_array(A1, chunks=4, inline_array=False)),
+        ("from_array:dtype", lambda: da.from_array(np.arange(4, dtype="i4"), chunks=2), lambda: da.from_array(np.arange(4, dtype="i8"), chunks=2)),
+        ("from_array:mask", lambda: da.from_array(np.ma.masked_array(A1, mask=A1 > 5), chunks=4), lambda: da.from_array(np.ma.masked_array(A1, mask=A1 > 6), chunks=4)),
+        ("from_array:masked/plain", lambda: da.from_array(np.ma.masked_array(A1, mask=A1 > 5), chunks=4), lambda: da.from_array(A1, chunks=4)),
+        ("from_array:fill_value", lambda: da.from_array(np.ma.masked_array(A1, mask=A1 > 5, fill_value=1), chunks=4).map_blocks(np.ma.filled, dtype="f8"),
+         lambda: da.from_array(np.ma.masked_array(A1, mask=A1 > 5, fill_value=2), chunks=4).map_blocks(np.ma.filled, dtype="f8")),
+        ("from_array:order", lambda: da.from_array(np.asfortranarray(A), chunks=2), lambda: da.from_array(A, chunks=2)),
+        ("map_blocks:kwargs", lambda: x1().map_blocks(_pf, k=2, dtype="f8"), lambda: x1().map_blocks(_pf, k=3, dtype="f8")),
+        ("map_blocks:dtype", lambda: x1().map_blocks(_pf, dtype="f8"), lambda: x1().map_blocks(_pf, dtype="f4")),
+        ("map_blocks:meta-type", lambda: x1().map_blocks(_pf, dtype="f8", meta=np.empty((0,))), lambda: x1().map_blocks(_pf, dtype="f8", meta=np.ma.empty((0,)))),
+        ("map_blocks:meta-dtype", lambda: x1().map_blocks(_pf, meta=np.empty((0,), dtype="f8")), lambda: x1().map_blocks(_pf, meta=np.empty((0,), dtype="f4"))),
+        ("map_blocks:chunks", lambda: x1().map_blocks(lambda b: b[:2], dtype="f8", chunks=(2,)), lambda: x1().map_blocks(lambda b: b[:2], dtype="f8", chunks=(3,))),
+        ("map_blocks:lambda", lambda: x1().map_blocks(lambda b: b + 1, dtype="f8"), lambda: x1().map_blocks(lambda b: b + 2, dtype="f8")),
+        ("map_blocks:closure", lambda: x1().map_blocks(_mk(1), dtype="f8"), lambda: x1().map_blocks(_mk(2), dtype="f8")),
+        ("map_blocks:name", lambda: x1().map_blocks(_pf, dtype="f8", name="nm"), lambda: x1().map_blocks(_pf, k=5, dtype="f8", name="nm")),
+        ("map_blocks:drop_axis", lambda: x().map_blocks(lambda b: b.sum(axis=0), drop_axis=0, dtype="i8"), lambda: x().map_blocks(lambda b: b.sum(axis=1), drop_axis=1, dtype="i8")),
+        ("map_blocks:enforce_ndim", lambda: x1().map_blocks(_pf, dtype="f8", enforce_ndim=True), lambda: x1().map_blocks(_pf, dtype="f8", enforce_ndim=False)),
+        ("blockwise:concatenate", lambda: da.blockwise(_pf, "i", x1(), "i", dtype="f8", concatenate=True), lambda: da.blockwise(_pf, "i", x1(), "i", dtype="f8", concatenate=False)),
+        ("blockwise:adjust_chunks", lambda: da.blockwise(_pf, "i", x1(), "i", dtype="f8", adjust_chunks={"i": 4}), lambda: da.blockwise(_pf, "i", x1(), "i", dtype="f8", adjust_chunks={"i": 5})),
+        ("blockwise:adjust_chunks-fn", lambda: da.blockwise(_pf, "i", x1(), "i", dtype="f8", adjust_chunks={"i": lambda n: n}),
+         lambda: da.blockwise(_pf, "i", x1(), "i", dtype="f8", adjust_chunks={"i": lambda n: 2 * n})),
+        ("blockwise:new_axes", lambda: da.blockwise(lambda b: b[:, None], "ij", x1(), "i", dtype="f8", new_axes={"j": 1}),
+         lambda: da.blockwise(lambda b: b[:, None], "ij", x1(), "i", dtype="f8", new_axes={"j": 2})),
+        ("blockwise:meta", lambda: da.blockwise(_pf, "i", x1(), "i", dtype="f8", meta=np.empty((0,), dtype="f8")),
+         lambda: da.blockwise(_pf, "i", x1(), "i", dtype="f8", meta=np.empty((0,), dtype="f4"))),
+        ("blockwise:align_arrays", lambda: da.blockwise(operator.add, "i", x1(), "i", x1().rechunk(6), "i", dtype="f8", align_arrays=True),
+         lambda: da.blockwise(operator.add, "i", x1(), "i", x1().rechunk(6), "i", dtype="f8", align_arrays=False)),
+        ("add:dtype", lambda: da.add(x1(), 1, dtype="f4"), lambda: da.add(x1(), 1, dtype="f8")),
+        ("add:1/1.0", lambda: x() + 1, lambda: x() + 1.0),
+        ("add:1/True", lambda: x() + 1, lambda: x() + True),
+        ("add:int8/int64", lambda: (x() + np.int8(100)) * 2, lambda: (x() + np.int64(100)) * 2),
+        ("add:0.0/-0.0", lambda: 1 / (x1() * 0.0 + 0.0), lambda: 1 / (x1() * 0.0 + (-0.0))),
+        ("add:where", lambda: da.add(x1(), 1, where=x1() > 3, out=da.zeros(12, chunks=4)), lambda: da.add(x1(), 1, where=x1() > 4, out=da.zeros(12, chunks=4))),
+        ("clip", lambda: da.clip(x1(), 1, 5), lambda: da.clip(x1(), 1, 6)),
+        ("astype", lambda: x1().astype("i4"), lambda: x1().astype("i8")),
+        ("round", lambda: da.round(x1() / 3, 1), lambda: da.round(x1() / 3, 2)),
+        ("isin:values", lambda: da.isin(x1(), [1, 2]), lambda: da.isin(x1(), [1, 3])),
+        ("isin:invert", lambda: da.isin(x1(), [1, 2]), lambda: da.isin(x1(), [1, 2], invert=True)),
+        ("rechunk:balance", lambda: x1().rechunk(5, balance=True), lambda: x1().rechunk(5, balance=False)),
+        ("rechunk:block_size_limit", lambda: x1().rechunk("auto", block_size_limit=16), lambda: x1().rechunk("auto", block_size_limit=32)),
+        ("transpose", lambda: x().transpose((1, 0)), lambda: x().transpose((0, 1))),
+        ("concatenate:axis", lambda: da.concatenate([x(), x()], axis=0), lambda: da.concatenate([x(), x()], axis=1)),
+        ("concatenate:order", lambda: da.concatenate([x(), x() + 1]), lambda: da.concatenate([x() + 1, x()])),
+        ("stack:axis", lambda: da.stack([x(), x()], axis=0), lambda: da.stack([x(), x()], axis=1)),
+        ("reshape:merge_chunks", lambda: x().reshape(24, merge_chunks=True), lambda: x().reshape(24, merge_chunks=False)),
+        ("squeeze:axis", lambda: x()[None, :, None].squeeze(axis=0), lambda: x()[None, :, None].squeeze(axis=2)),
+        ("expand_dims", lambda: da.expand_dims(x(), 0), lambda: da.expand_dims(x(), 1)),
+        ("flip", lambda: da.flip(x(), 0), lambda: da.flip(x(), 1)),
+        ("roll:shift", lambda: da.roll(x(), 1, 0), lambda: da.roll(x(), 2, 0)),
+        ("repeat", lambda: da.repeat(x(), 2, axis=0), lambda: da.repeat(x(), 3, axis=0)),
+        ("tile", lambda: da.tile(x(), 2), lambda: da.tile(x(), 3)),
+        ("pad:mode", lambda: da.pad(x1(), 1, mode="edge"), lambda: da.pad(x1(), 1, mode="reflect")),
+        ("pad:constant", lambda: da.pad(x1(), 1, mode="constant", constant_values=1), lambda: da.pad(x1(), 1, mode="constant", constant_values=2)),
+        ("map_overlap:depth", lambda: da.map_overlap(lambda b: b * 1, x1(), depth=1, boundary="reflect", dtype="f8", trim=False),
+         lambda: da.map_overlap(lambda b: b * 1, x1(), depth=2, boundary="reflect", dtype="f8", trim=False)),
+        ("map_overlap:boundary", lambda: da.map_overlap(lambda b: b * 1, x1(), depth=1, boundary="reflect", dtype="f8", trim=False),
+         lambda: da.map_overlap(lambda b: b * 1, x1(), depth=1, boundary="periodic", dtype="f8", trim=False)),
+        ("map_overlap:boundary-value", lambda: da.map_overlap(lambda b: b * 1, x1(), depth=1, boundary=0, dtype="f8", trim=False),
+         lambda: da.map_overlap(lambda b: b * 1, x1(), depth=1, boundary=7, dtype="f8", trim=False)),
+        ("map_overlap:trim", lambda: da.map_overlap(lambda b: b * 1, x1(), depth=1, boundary="reflect", dtype="f8", trim=True),
+         lambda: da.map_overlap(lambda b: b * 1, x1(), depth=1, boundary="reflect", dtype="f8", trim=False)),
+        ("take", lambda: da.take(x1(), [1, 2]), lambda: da.take(x1(), [1, 3])),
+        ("fancy-index", lambda: x1()[np.array([1, 2])], lambda: x1()[np.array([1, 3])]),
+        ("bool-mask", lambda: x1()[A1 > 3], lambda: x1()[A1 > 4]),
+        ("vindex", lambda: x().vindex[[0, 1], [1, 2]], lambda: x().vindex[[0, 1], [1, 3]]),
+        ("slice:step", lambda: x1()[::2], lambda: x1()[::3]),
+        ("slice:neg-step", lambda: x1()[::-1], lambda: x1()[::1] * 1),
+        ("setitem", lambda: _set(x1(), 1), lambda: _set(x1(), 2)),
+        ("diff:n", lambda: da.diff(x1(), n=1), lambda: da.diff(x1(), n=2)),
+        ("histogram:bins", lambda: da.histogram(x1(), bins=3, range=(0, 12))[0], lambda: da.histogram(x1(), bins=4, range=(0, 12))[0]),
+        ("histogram:range", lambda: da.histogram(x1(), bins=3, range=(0, 12))[0], lambda: da.histogram(x1(), bins=3, range=(0, 6))[0]),
+        ("histogram:density", lambda: da.histogram(x1(), bins=3, range=(0, 12), density=True)[0], lambda: da.histogram(x1(), bins=3, range=(0, 12))[0]),
+        ("bincount:minlength", lambda: da.bincount(x1().astype("i8"), minlength=12), lambda: da.bincount(x1().astype("i8"), minlength=14)),
+        ("bincount:weights", lambda: da.bincount(x1().astype("i8"), weights=x1(), minlength=12), lambda: da.bincount(x1().astype("i8"), weights=x1() * 2, minlength=12)),
+        ("tensordot:axes", lambda: da.tensordot(x(), x().T, axes=1), lambda: da.tensordot(x(), x(), axes=([0, 1], [0, 1]))),
+        ("einsum", lambda: da.einsum("ij,ij->i", x(), x()), lambda: da.einsum("ij,ij->j", x(), x())),
+        ("ones/zeros", lambda: da.ones(4, chunks=2), lambda: da.zeros(4, chunks=2)),
+        ("full:value", lambda: da.full(4, 1, chunks=2), lambda: da.full(4, 2, chunks=2)),
+        ("full:value-dtype", lambda: da.full(4, 1, chunks=2, dtype="f8"), lambda: da.full(4, 1.5, chunks=2, dtype="f8")),
+        ("arange:start", lambda: da.arange(4, chunks=2), lambda: da.arange(1, 5, chunks=2)),
+        ("arange:dtype", lambda: da.arange(4, chunks=2, dtype="i4"), lambda: da.arange(4, chunks=2, dtype="i8")),
+        ("linspace:endpoint", lambda: da.linspace(0, 1, 4, chunks=2), lambda: da.linspace(0, 1, 4, chunks=2, endpoint=False)),
+        ("eye:k", lambda: da.eye(4, chunks=2), lambda: da.eye(4, chunks=2, k=1)),
+        ("tril/triu", lambda: da.tril(x()), lambda: da.triu(x())),
+        ("diag:k", lambda: da.diag(x1(), k=0), lambda: da.diag(x1(), k=1)),
+        ("fromfunction", lambda: da.fromfunction(lambda i: i, shape=(4,), chunks=2, dtype="f8"), lambda: da.fromfunction(lambda i: i + 1, shape=(4,), chunks=2, dtype="f8")),
+        ("indices:dtype", lambda: da.indices((4,), chunks=2), lambda: da.indices((4,), chunks=2, dtype="f8")),
+        ("random:chunks", lambda: rng().random(4, chunks=2), lambda: rng().random(4, chunks=4)),
+        ("random:seed", lambda: rng(1).random(4, chunks=2), lambda: rng(2).random(4, chunks=2)),
+        ("random:dtype", lambda: rng().random(4, chunks=2, dtype="f4"), lambda: rng().random(4, chunks=2, dtype="f8")),
+        ("random:normal-loc", lambda: rng().normal(0, 1, size=4, chunks=2), lambda: rng().normal(1, 1, size=4, chunks=2)),
+        ("random:normal-loc-array", lambda: rng().normal(da.zeros(4, chunks=2), 1, size=4, chunks=2), lambda: rng().normal(da.ones(4, chunks=2), 1, size=4, chunks=2)),
+        ("random:integers-high", lambda: rng().integers(0, 10, size=4, chunks=2), lambda: rng().integers(0, 11, size=4, chunks=2)),
+        ("random:integers-endpoint", lambda: rng().integers(0, 10, size=8, chunks=2), lambda: rng().integers(0, 10, size=8, chunks=2, endpoint=True)),
+        ("random:bitgen", lambda: da.random.Generator(np.random.PCG64(1)).random(4, chunks=2), lambda: da.random.Generator(np.random.MT19937(1)).random(4, chunks=2)),
+        ("random:RandomState/Generator", lambda: da.random.RandomState(1).random_sample(4, chunks=2), lambda: rng().random(4, chunks=2)),
+        ("random:choice-p", lambda: rng().choice(5, size=4, chunks=2, p=[.2] * 5), lambda: rng().choice(5, size=4, chunks=2, p=[.6, .1, .1, .1, .1])),
+        ("random:choice-replace", lambda: rng().choice(5, size=4, chunks=4, replace=False), lambda: rng().choice(5, size=4, chunks=4, replace=True)),
+        ("random:permutation", lambda: rng(1).permutation(x1()), lambda: rng(2).permutation(x1())),
+        ("random:RandomState-loc-array", lambda: da.random.RandomState(1).normal(x1(), 1, chunks=4), lambda: da.random.RandomState(1).normal(x1() + 1, 1, chunks=4)),
+    ]
+
+    def desc(a):
+        with warnings.catch_warnings():
+            warnings.simplefilter("ignore")
+            try:
+                v = np.asarray(a.compute(scheduler="sync"))
+                val = (str(v.dtype), v.shape, np.ma.filled(v, -99).tolist() if v.dtype != object else repr(v))
+            except Exception as e:  # noqa: BLE001
+                val = ("ERR", type(e).__name__)
+        return {"chunks": repr(a.chunks), "dtype": str(a.dtype), "value": repr(val)}
+
+    for label, m1, m2 in P:
+        chk.count("probe")
+        try:
+            with warnings.catch_warnings():
+                warnings.simplefilter("ignore")
+                a, b = m1(), m2()
+                da_, db_ = desc(a), desc(b)
+        except Exception as e:  # noqa: BLE001
+            chk.count("probe:skipped:" + type(e).__name__)
+            continue
+        chk.case(("probe", label), nontrivial=True)
+        diffs = [k for k in da_ if da_[k] != db_[k]]
+        if a.name == b.name and diffs:
+            chk.violation(f"probe {label}: the two calls differ in one operand, get the SAME name {a.name} but different {', '.join(diffs)}",
+                          {"label": label, "first": da_, "second": db_}, signature={"class": "operand-not-in-name", "probe": label, "fields": diffs})
+        else:
+            chk.count("probe:names-differ" if a.name != b.name else "probe:same-name-same-array")
+            chk.traces_validated += 1
+
+
+def rechunk_layers_only(a, b):
+    """the two optimized graphs differ only in rechunk-merge-/rechunk-split- layer names (finding C07-B: the name of a
+    rechunk depends on object sharing inside its chunk tuples, so the same rechunk may appear under one or two names)"""
+    d = set(a.get("_layers", [])) ^ set(b.get("_layers", []))
+    return bool(d) and all(x.startswith(("rechunk-merge-", "rechunk-split-")) for x in d)
+
+
+def equal_input_probes(chk, da):
+    """the converse: EQUAL inputs (==, same types) spelled through different objects must give the same name"""
+    x = lambda: da.ones((2, 2), chunks=1) + 1        # noqa: E731
+    t = (2,)
+
+    def f(b, p=1, q=2):
+        return b * p + q
+
+    P = [
+        ("rechunk:shared-vs-unshared-chunk-tuples", lambda: x().rechunk((t, t)), lambda: x().rechunk(((2,), tuple([2])))),
+        ("rechunk:dict-order", lambda: x().rechunk({0: 2, 1: 2}), lambda: x().rechunk({1: 2, 0: 2})),
+        ("map_blocks:kwargs-order", lambda: x().map_blocks(f, p=3, q=4, dtype="f8"), lambda: x().map_blocks(f, q=4, p=3, dtype="f8")),
+        ("sum:split_every-dict-order", lambda: x().sum(split_every={0: 2, 1: 2}), lambda: x().sum(split_every={1: 2, 0: 2})),
+        ("from_array:equal-data", lambda: da.from_array(np.arange(2.0), chunks=(t,)), lambda: da.from_array(np.arange(2.0) * 1, chunks=((2,) * 1,))),
+        ("slice:equal-slices", lambda: x()[slice(0, 1), slice(0, 1)], lambda: x()[0:1, 0:1]),
+        ("transpose:equal-axes", lambda: x().transpose((1, 0)), lambda: x().transpose(tuple([1, 0]))),
+    ]
+    for label, m1, m2 in P:
+        chk.count("equal-input-probe")
+        chk.case(("equal-input-probe", label), nontrivial=True)
+        with warnings.catch_warnings():
+            warnings.simplefilter("ignore")
+            a, b = m1(), m2()
+        if a.name != b.name:
+            chk.violation(f"probe {label}: equal inputs, different names ({a.name} / {b.name})", {"label": label},
+                          signature={"class": "equal-inputs-different-names", "probe": label})
+        else:
+            chk.traces_validated += 1
 
 
 def run(chk: Check):
+    with nm.recording():
+        _run(chk)
+
+
+def _run(chk: Check):
     import dask_array as da
     chk.rule = ("generated programs over tokenizable inputs: (a) rebuilt in the same process from a fresh construction, (b) rebuilt in fresh "
                 "interpreters with different PYTHONHASHSEED values, (c) cloudpickle / pickle round trip of the collection; compared: name, "
                 "__dask_keys__, the full key set of the optimized graph, chunks, dtype, __frisky_output_keys__, computed values; "
+                "(d) the pickle loaded by a fresh interpreter; (e) every expression node of the raw/simplified/lowered/fused/"
+                "materialized forms pickled on its own and tied to the model (reduce_carries, rt_name); (f) operand probes: "
+                "pairs of API calls that differ in one operand must get different names whenever values/chunks/dtype differ; "
                 "non-trivial = more than one node")
     chk.run_proofs()
+    chk.assumptions = ["the pickle hash behind Rechunk names (hash_buffer_hex of a protocol-5 pickle of ints/strings) is process independent",
+                       "untokenizable sources get a per-instance random token (documented exception; C07_identity_operand_leaks)"]
+    import time
+    t0 = time.time()
+    operand_probes(chk, da)
+    equal_input_probes(chk, da)
+    chk.extra["t_probes"] = round(time.time() - t0, 1)
+    nodes = NodeRoundTrip(chk)
     d = tempfile.mkdtemp(prefix="verif-c07-", dir=SCRATCH_ROOT)
     try:
         n = 1500 if chk.tier == "thorough" else 120
         cases = []
-        for i, (prog, sources, want) in enumerate(progs.gen_programs(chk.rng, n, ops=progs.CORE_OPS + ["roll", "take", "swv"], depth_choices=(1, 2, 3, 4, 5))):
+        pickles = []
+        # corpus: an arg-reduction first (known finding C07-A shows up in family (d))
+        fixed = [(("elem", "add", ("reduce", "argmin", ("src", 0), 0, False, None), ("const", 1)),
+                  [(np.arange(12, dtype="int64").reshape(3, 4) % 5, ((1, 2), (2, 2)))], None)]
+        import itertools
+        for i, (prog, sources, want) in enumerate(itertools.chain(fixed, progs.gen_programs(
+                chk.rng, n, ops=progs.CORE_OPS + ["roll", "take", "swv"], depth_choices=(1, 2, 3, 4, 5)))):
             path = os.path.join(d, f"p{i}.py")
             progs.dump_case(path, prog, sources)
             prog2, sources2 = progs.load_case(path)     # what the child will see
@@ -51,10 +404,10 @@ def run(chk: Check):
                 y = progs.build(prog3, da, sources3, memo={})
                 s2 = summary(y)
             chk.count("rebuild:in-process")
-            diff = [k for k in s1 if s1[k] != s2[k]]
+            diff = [k for k in s1 if not k.startswith('_') and s1[k] != s2[k]]
             if diff:
                 chk.violation("rebuilding the same program in the same process changes " + ", ".join(diff), {**desc, "first": s1, "second": s2},
-                              signature={"class": "in-process", "fields": diff})
+                              signature={"class": "in-process", "fields": diff, "rechunk_layers_only": rechunk_layers_only(s1, s2)})
             # (c) pickle round trips
             for mod in (cloudpickle,):
                 chk.count("pickle:" + mod.__name__)
@@ -69,13 +422,51 @@ def run(chk: Check):
                     chk.violation(f"{mod.__name__} round trip raises {type(e).__name__}: {str(e)[:100]}", desc,
                                   signature={"class": "pickle-raises", "module": mod.__name__, "error": type(e).__name__})
                     continue
-                diff = [k for k in s1 if s1[k] != s3[k]] + (["frisky_output_keys"] if fk1 != fk3 else [])
+                diff = [k for k in s1 if not k.startswith('_') and s1[k] != s3[k]] + (["frisky_output_keys"] if fk1 != fk3 else [])
                 if diff:
                     chk.violation(f"{mod.__name__} round trip changes " + ", ".join(diff), {**desc, "before": s1, "after": s3},
                                   signature={"class": "pickle", "fields": diff})
                 else:
                     chk.traces_validated += 1
             cases.append((path, s1, desc))
+            if i < (600 if chk.tier == "thorough" else 60):
+                nodes.add(x, progs.show(prog2))
+            # (d) unpickled in a FRESH interpreter (empty registries, different hash seed)
+            pk = os.path.join(d, f"p{i}.pkl")
+            try:
+                with warnings.catch_warnings():
+                    warnings.simplefilter("ignore")
+                    with open(pk, "wb") as f:
+                        cloudpickle.dump(x, f)
+                pickles.append((pk, s1, desc))
+            except Exception:  # noqa: BLE001
+                pass        # reported by (c)
+        chk.extra["t_main"] = round(time.time() - t0, 1)
+        nodes.finish()
+        chk.extra["t_nodes_coq"] = round(time.time() - t0, 1)
+        # (d) pickles loaded by a fresh interpreter
+        for k in range(0, len(pickles), 60):
+            part = pickles[k:k + 60]
+            env = dict(os.environ, PYTHONHASHSEED="4242", PYTHONPATH=f"{REPO}:{os.path.dirname(os.path.abspath(__file__))}")
+            p = subprocess.run([sys.executable, os.path.join(os.path.dirname(os.path.abspath(__file__)), "c07_child.py"), *[c[0] for c in part]],
+                               env=env, stdout=subprocess.PIPE, stderr=subprocess.PIPE, text=True, timeout=600)
+            line = [ln for ln in p.stdout.splitlines() if ln.startswith("C07CHILD ")]
+            if not line:
+                chk.tie_break("harness:c07-child-failed", {"stderr": p.stderr[-1500:]})
+                continue
+            res = json.loads(line[0][len("C07CHILD "):])
+            for path, s1, desc in part:
+                chk.count("unpickle:fresh-process")
+                s5 = res.get(path, {"error": "missing"})
+                diff = [k2 for k2 in s1 if not k2.startswith('_') and s1.get(k2) != s5.get(k2)]
+                if diff:
+                    arg = any(o.startswith("reduce:arg") for o in progs.ops_in(progs.load_case(path[:-4] + ".py")[0]))
+                    chk.violation("unpickling in a fresh interpreter changes " + ", ".join(diff), {**desc, "here": s1, "fresh_process": s5},
+                                  signature={"class": "cross-process-pickle", "fields": diff, "arg_reduction": arg,
+                                             "rechunk_layers_only": rechunk_layers_only(s1, s5)})
+                else:
+                    chk.traces_validated += 1
+        chk.extra["t_unpickle"] = round(time.time() - t0, 1)
         # (b) fresh interpreters, different hash seeds
         per = 40
         for hs in ((1, 12345) if chk.tier == "quick" else (1, 7, 12345, 99999)):
@@ -92,10 +483,11 @@ def run(chk: Check):
                 for path, s1, desc in part:
                     chk.count("rebuild:fresh-process")
                     s4 = res.get(path, {"error": "missing"})
-                    diff = [k for k in s1 if s1.get(k) != s4.get(k)]
+                    diff = [k for k in s1 if not k.startswith('_') and s1.get(k) != s4.get(k)]
                     if diff:
                         chk.violation(f"rebuilding in a fresh interpreter (PYTHONHASHSEED={hs}) changes " + ", ".join(diff),
-                                      {**desc, "here": s1, "fresh_process": s4}, signature={"class": "cross-process", "fields": diff})
+                                      {**desc, "here": s1, "fresh_process": s4},
+                                      signature={"class": "cross-process", "fields": diff, "rechunk_layers_only": rechunk_layers_only(s1, s4)})
                     else:
                         chk.traces_validated += 1
     finally:
